@@ -22,7 +22,7 @@ const (
 	sBVBase // SBV(n) = sBVBase + n
 )
 
-func SBV(n int) Sort { return sBVBase + Sort(n) }
+func SBV(n int) Sort      { return sBVBase + Sort(n) }
 func (s Sort) IsBV() bool { return s > sBVBase }
 func (s Sort) Width() int {
 	switch s {
@@ -131,8 +131,8 @@ func (ts *TermStore) Bool(b bool) *Term {
 	}
 	return ts.Const(SBool, 0)
 }
-func (ts *TermStore) F64(f float64) *Term { return ts.Const(SF64, math.Float64bits(f)) }
-func (ts *TermStore) F32(f float32) *Term { return ts.Const(SF32, uint64(math.Float32bits(f))) }
+func (ts *TermStore) F64(f float64) *Term      { return ts.Const(SF64, math.Float64bits(f)) }
+func (ts *TermStore) F32(f float32) *Term      { return ts.Const(SF32, uint64(math.Float32bits(f))) }
 func (ts *TermStore) BV(w int, v uint64) *Term { return ts.Const(SBV(w), v) }
 
 func (t *Term) IsConst() bool { return t.op == "const" }
